@@ -127,7 +127,7 @@ def vary_history(rng, S, d, variant=None):
     queries and in-place operations (warm caches, moved away and back, scaled and back, complemented in place, refined by split).
     Every step is exact for rational data.  Stale per-object state shows up as a difference from the freshly built `S`."""
     from shapepy import SimpleShape
-    variants = ["fresh", "warm", "move-back", "scale-back", "split", "warm-transform-warm", "reflected-in-place", "reflected-in-place"]
+    variants = ["fresh", "warm", "move-back", "scale-back", "split", "warm-transform-warm", "reflected-in-place", "reflected-in-place", "scaled-in-place"]
     if d[0] == "S":
         variants += ["invert-twice", "complement-inverted-in-place"]
     v = variant or rng.choice(variants)
@@ -161,6 +161,12 @@ def vary_history(rng, S, d, variant=None):
         from harness.props.c04 import rebuild
         X = rebuild(map_desc(d, lambda p: (-p[0], -p[1])))
         warm(X); X.scale(-1, -1)
+        return X, v
+    elif v == "scaled-in-place":
+        # a twin drawn at another size and place, used, then brought onto the description in place (a net change of area: nothing returns to a cached state)
+        from harness.props.c04 import rebuild
+        X = rebuild(map_desc(d, lambda p: ((F(p[0]) - 3) / 2, (F(p[1]) + 5) / 4)))
+        warm(X); X.scale(2, 4); warm(X); X.move(3, -5)
         return X, v
     elif v == "complement-inverted-in-place":
         X = simple(d[1][::-1])
